@@ -59,6 +59,7 @@ type c07Case struct {
 	Seed    uint64      `json:"seed"`
 	Init    [][][]int64 `json:"init"` // per table
 	Queries []c07Query  `json:"queries"`
+	Mid     []c07Op     `json:"mid,omitempty"` // writes committed (and their events delivered) right after a live query's read, before it returns
 	Ops     []c07Op     `json:"ops"`
 }
 
@@ -120,6 +121,7 @@ type c07Change struct {
 }
 
 type c07World struct {
+	pushMu   sync.Mutex
 	mu       sync.Mutex
 	rnd      *Rand
 	labels   []c07Label
@@ -278,6 +280,8 @@ func (w *c07World) noise(kind int) {
 }
 
 func (w *c07World) push(ch chan *replication.BinlogEvent, n int) {
+	w.pushMu.Lock() // the change log is one sequence: events enter the stream in commit order
+	defer w.pushMu.Unlock()
 	w.mu.Lock()
 	if n > len(w.pending) {
 		n = len(w.pending)
@@ -539,7 +543,7 @@ func c07One(c *Ctx, m *Model, cs c07Case) {
 
 	// the history
 	wctx := context.Background()
-	for _, op := range cs.Ops {
+	doOp := func(op c07Op) {
 		var err error
 		tbl := op.Table
 		do := func(a func(*c10Row) error, b func(*c07RowB) error, r []int64) error {
@@ -582,6 +586,10 @@ func c07One(c *Ctx, m *Model, cs c07Case) {
 					err = db.UpsertRows(wctx, rows, 10)
 				}
 			}
+		case "updateWhere": // one statement changing several rows: one event with several before/after pairs
+			_, err = conn.ExecContext(wctx, "UPDATE "+c07Tables[tbl]+" SET b = ? WHERE b = ?", op.Rows[0][2], op.Rows[0][3])
+		case "deleteWhere":
+			_, err = conn.ExecContext(wctx, "DELETE FROM "+c07Tables[tbl]+" WHERE b = ?", op.Rows[0][2])
 		case "deliver":
 			w.push(ch, op.N)
 		case "noise":
@@ -590,6 +598,47 @@ func c07One(c *Ctx, m *Model, cs c07Case) {
 			time.Sleep(time.Duration(op.N) * time.Microsecond)
 		}
 		_ = err // a duplicate key or a missing row: the fake database refused, nothing was written
+	}
+	// writes squeezed in right after a live query's read: committed, handed to the poll loop and processed by the
+	// tracker before the read returns to the live query
+	var midMu sync.Mutex
+	mid := append([]c07Op{}, cs.Mid...)
+	fdb.afterSelect = func(q string) {
+		if strings.Contains(q, "information_schema") {
+			return
+		}
+		w.mu.Lock()
+		_, live := w.cur[goid()]
+		if w.foreign[goid()] {
+			live = false
+		}
+		w.mu.Unlock()
+		if !live {
+			return
+		}
+		midMu.Lock()
+		if len(mid) == 0 {
+			midMu.Unlock()
+			return
+		}
+		op := mid[0]
+		mid = mid[1:]
+		midMu.Unlock()
+		doOp(op)
+		w.push(ch, 1<<30)
+		deadline := time.Now().Add(2 * time.Second)
+		for time.Now().Before(deadline) {
+			w.mu.Lock()
+			done := w.delivers >= w.expected && w.polled == w.pushed
+			w.mu.Unlock()
+			if done {
+				break
+			}
+			time.Sleep(200 * time.Microsecond)
+		}
+	}
+	for _, op := range cs.Ops {
+		doOp(op)
 		if w.rnd.Chance(0.5) {
 			runtime.Gosched()
 		}
@@ -836,7 +885,21 @@ func c07Gen(r *Rand) c07Case {
 					op.Rows = append(op.Rows, row)
 				}
 			}
-		case 7, 8, 9:
+		case 7:
+			op.Op = []string{"updateWhere", "deleteWhere", "upsertRows"}[r.Intn(3)]
+			if op.Op == "upsertRows" {
+				seen := map[int64]bool{}
+				for k := 2 + r.Intn(4); k > 0; k-- {
+					row := c07GenRow(r)
+					if !seen[row[0]] {
+						seen[row[0]] = true
+						op.Rows = append(op.Rows, row)
+					}
+				}
+			} else {
+				op.Rows = [][]int64{{0, 0, int64(r.Intn(3)), int64(r.Intn(3))}} // SET b = [2] WHERE b = [3] / DELETE WHERE b = [2]
+			}
+		case 8, 9:
 			op.Op, op.N = "deliver", 1+r.Intn(3)
 		case 10:
 			op.Op, op.N = "noise", r.Intn(4)
@@ -847,6 +910,13 @@ func c07Gen(r *Rand) c07Case {
 			op.Bad = 1 + r.Intn(3)
 		}
 		cs.Ops = append(cs.Ops, op)
+	}
+	for k := r.Intn(3); k > 0; k-- {
+		op := c07Op{Op: []string{"insert", "update", "delete", "upsert"}[r.Intn(4)], Table: 0, Rows: [][]int64{c07GenRow(r)}}
+		if r.Chance(0.25) {
+			op.Table = 1
+		}
+		cs.Mid = append(cs.Mid, op)
 	}
 	return cs
 }
@@ -882,7 +952,26 @@ func runC07(c *Ctx) error {
 	r := c.Rng
 	n := c.N(250, 12000)
 	for i := 0; i < n && !c.Rep.ShouldStop(); i++ {
-		c07One(c, m, c07Gen(r))
+		cs := c07Gen(r)
+		before := len(c.Rep.Failures)
+		c07One(c, m, cs)
+		if len(c.Rep.Failures) > before && c.Rep.Failures[len(c.Rep.Failures)-1].Kind == "impl_ne_model" {
+			// the implementation left the model: look for a history on which the property itself fails - cut the
+			// history after each write in turn, so that nothing later repairs a missed invalidation
+			for k := len(cs.Ops); k >= 1; k-- {
+				if cs.Ops[k-1].Rows == nil {
+					continue
+				}
+				cut := cs
+				cut.Ops = append([]c07Op{{Op: "pause", N: 3000}}, cs.Ops[:k]...)
+				cut.Mid = nil
+				at := len(c.Rep.Failures)
+				c07One(c, m, cut)
+				if len(c.Rep.Failures) > at && c.Rep.Failures[len(c.Rep.Failures)-1].Kind == "impl_ne_spec" {
+					break
+				}
+			}
+		}
 	}
 	return nil
 }
